@@ -3,6 +3,7 @@ import RpmVerif.Model.AddData
 import RpmVerif.Spec.AddData
 import RpmVerif.Driver.WithFile
 import RpmVerif.Gen.CompressionNames
+import RpmVerif.Driver.Bld
 /-! Driver for C17. Ops (texts as hex of their bytes, `-` = empty):
   `dest H`                 – `PackageBuilder::with_file(src, FileOptions::new(H))` → `build()` → write → parse;
                              obs `ok <dir> <basename> <path>` (DIRNAMES / BASENAMES / `get_file_paths()` read back,
@@ -193,8 +194,66 @@ def handleCaps (t : Bytes) (impl : String) : String :=
   | _ =>
     answer "?" (if isPanicObs impl then "fails:" ++ clsBuilderPanic else "fails:malformed") "caps:malformed"
 
+/-! ### `build17 <tokens>`: a whole call sequence, then `build()` (or `build_and_sign` / `build` + `sign`)
+
+Model: `Build.buildCalls` (`Model/PrepareData.lean`) in the environment the harness sets up — the clock pinned to `now=` by the
+hook, an all-accepting compressor whose `finish` returns the archive itself for `None` and otherwise an opaque payload whose
+digest is copied from the observation (the driver cannot compress), the driver's own SHA-256 for everything else: the ARCHIVE
+digest is predicted from the model's own cpio bytes (standard and large-file form), the lead and the main header byte for byte.
+A codec that is not compiled in is refused by `enc`. Spec (C17): whatever the arguments, never a panic. -/
+def payloadMark : Bytes := [0xff, 0x00, 0x70, 0x61, 0x79]
+
+def handleBuild17 (args : List String) (impl : String) : String :=
+  open RpmVerif.Driver.Bld RpmVerif.Hdr RpmVerif.Bld in
+  match parseReqWith RpmVerif.Driver.WithFile.capsValid args with
+  | none => badReq "cfg"
+  | some r =>
+    let itoks := (impl.splitOn " ").filter (· ≠ "")
+    let tok (k : String) : String :=
+      (itoks.findSome? fun t => if t.startsWith (k ++ "=") then some (t.drop (k.length + 1)).toString else none).getD "<missing>"
+    let nobz := kv args "feat" == some "nobz"
+    let paysha : Bytes := (bytesOfHex (tok "paysha")).getD []
+    let E : RpmVerif.Build.Env :=
+      { sha256 := fun b => if b == payloadMark then paysha else Hash.sha256L b,
+        clock := ⟨r.now, 0, by decide⟩,
+        enc := fun v _ => if nobz && Gen.levelVariants[v]? == some "Bzip2" then .err "UnsupportedCompressorType" else .ok (),
+        sink := {},
+        finish := fun a => .ok a }
+    -- the state after the calls decides whether the payload is the archive (no compression) or opaque
+    let E := match RpmVerif.Build.run E.hex RpmVerif.Driver.WithFile.capsValid r.calls r.st0 with
+      | .ok st => (match st.base.compression with | .none => E | _ => { E with finish := fun _ => .ok payloadMark })
+      | _ => E
+    let signed := (kv args "sgn").isSome
+    let m := match RpmVerif.Build.buildCalls E RpmVerif.Driver.WithFile.capsValid r.st0 r.calls with
+      | .ok p =>
+        let hbytes := writeHeader p.md.header
+        let same := match parseMetadata (writeMetadata p.md) with | .ok (m2, _) => m2 == p.md | _ => false
+        let archsha := match RpmVerif.Build.run E.hex RpmVerif.Driver.WithFile.capsValid r.calls r.st0 with
+          | .ok st => (match RpmVerif.Build.prepareArchive E st.cfg st.fes with | some a => hexOfBytes (Hash.sha256L a) | none => "?")
+          | _ => "?"
+        let paysha' := if p.content == payloadMark then tok "paysha" else hexOfBytes (Hash.sha256L p.content)
+        s!"ok paysha={paysha'} archsha={archsha} lead={hex16 (fnv (writeLead p.md.lead))} sig={if signed then "signed" else hex16 (fnv (writeSignature p.md.signature))} hdr={hex16 (fnv hbytes)} hlen={hbytes.length} same={boolStr same}"
+      | .err c =>
+        if c == "level-out-of-range" then "err:io"                 -- `io::Error(InvalidInput)` → `Error::Io`
+        else if c == "UnsupportedCompressorType" then "err:other"
+        else "err:" ++ c
+      -- the known-finding region (a timestamp setter unwrapping): the model mirrors the defect; anything else the code does
+      -- there is judged by the spec alone
+      | .panic site => if impl == "panic" then "panic" else if site.startsWith "timestamp-unwrap" then "*" else "panic"
+    let tsPanic := match RpmVerif.Build.buildCalls E RpmVerif.Driver.WithFile.capsValid r.st0 r.calls with
+      | .panic site => site.startsWith "timestamp-unwrap"
+      | _ => false
+    let verdict :=
+      if isPanicObs impl then (if tsPanic then "fails:" ++ clsTimestampPanic else "fails:" ++ clsBuilderPanic)
+      else if impl.startsWith "ok " || impl.startsWith "err:" then "holds"
+      else "fails:malformed"
+    let label := "build17:" ++ (match m.splitOn " " with | h :: _ => h | [] => "?") ++
+      (if signed then ":signed" else "") ++ (if (kv args "lf").isSome then ":lf" else "")
+    answer m verdict label
+
 def handle (op : String) (args : List String) (impl : String) : String :=
   match op, args with
+  | "build17", _ => handleBuild17 args impl
   | "dest", [h] =>
     match bytesOfHex h with
     | some d => handleDest d impl
@@ -241,7 +300,16 @@ def handle (op : String) (args : List String) (impl : String) : String :=
     | none => badReq "hex"
   | "meta", [h] =>
     match bytesOfHex h with
-    | some _ => answer "ok" (if isPanicObs impl then "fails:" ++ clsBuilderPanic else "holds") "meta"
+    -- every string setter, `epoch`, all nine scriptlet setters (from text and from a `Scriptlet`), all eight dependency setters
+    -- (through eight constructors), a changelog entry and a file with that text as owner / group / link, built through
+    -- `build` (even length) / `build_and_sign` (odd length), written, re-parsed and read back: `ok rt=all` — everything came
+    -- back as given — or `ok rt=<fields that did not>`. A header string ends at its first NUL, so a text with a NUL comes back
+    -- cut (no prediction there); any other text must come back whole (model: `C06.readback_*` over `Bld.Cfg.applyAll`).
+    | some t =>
+      let nul := t.contains 0
+      answer (if nul then "*" else "ok rt=all")
+        (if isPanicObs impl then "fails:" ++ clsBuilderPanic else if !nul && impl.startsWith "ok rt=" && impl != "ok rt=all" then "fails:meta-readback" else "holds")
+        (if nul then "meta:nul" else "meta")
     | none => badReq "hex"
   | "wfile17", _ => RpmVerif.Driver.WithFile.handle false args impl
   | "layout", [l] =>
@@ -255,6 +323,6 @@ def handle (op : String) (args : List String) (impl : String) : String :=
     | none => badReq "hex"
   | _, _ => badReq "op"
 
-def ops : List String := ["wfile17", "layout", "dest", "pcomps", "pparent", "pfilename", "pstrip", "pjoin", "level", "levelnb", "leveld", "leveldnb", "tsset", "capsset", "meta"]
+def ops : List String := ["build17", "wfile17", "layout", "dest", "pcomps", "pparent", "pfilename", "pstrip", "pjoin", "level", "levelnb", "leveld", "leveldnb", "tsset", "capsset", "meta"]
 
 end RpmVerif.Driver.C17
